@@ -609,8 +609,9 @@ Definition ustep (us : uschema) (e : uev) : ures :=
       if N.eqb n m then (match find_type us n with Some _ => UOk us [] | None => URejected end) else
       match find_type us n, find_type us m with
       | Some ty, None =>
-          (* expressions of computed links mention the type by name: rewriting them is schema-layer work *)
-          if existsb (fun p => up_link p && up_comp p && N.eqb (up_target p) (ut_id ty)) (all_ptrs us)
+          (* expressions of computed pointers / link properties mention types by name: rewriting them
+             on a type rename is schema-layer work (and fails in several situations) *)
+          if existsb (fun p => up_comp p || existsb lp_comp (up_lps p)) (all_ptrs us)
           then UOutOfScope else
           UOk (upd_type us (mkType (ut_id ty) m (ut_abstract ty) (ut_bases ty) (ut_own ty))) []
       | _, _ => URejected
